@@ -1,10 +1,20 @@
 #!/bin/bash
-# tools/eval_all_seeded.sh [out-file]  - every seeded change against the quick check of its property; prints one line per change
-OUT=${1:-/dev/stdout}
+# tools/eval_all_seeded.sh <out-file> [stride offset]  - every seeded change against the check(s) named in its meta.json
+# ("caught_by" lists the properties); prints one line per change.  With stride/offset the list is split for parallel runs.
+OUT=${1:-/dev/stdout}; STRIDE=${2:-1}; OFFS=${3:-0}
+i=0
 for d in /verif/seeded/C*; do
+  i=$((i+1)); [ $((i % STRIDE)) -eq $OFFS ] || continue
   ID=$(basename $d)
-  R=$(/verif/tools/eval_seeded.sh $ID 2>&1)
+  PROPS=$(python3 -c "
+import json,re,sys
+m=json.load(open('$d/meta.json'))
+cb=m.get('caught_by') or m['property']
+ps=re.findall(r'C\d\d',cb.split('not C')[0].split('; not')[0])
+print(' '.join(dict.fromkeys(ps)) or m['property'])")
+  R=$(/verif/tools/eval_seeded.sh $ID $PROPS 2>&1)
   V=$(echo "$R" | grep -c '^VALID=1')
   C=$(echo "$R" | grep -E '^check' | grep -c 'exit 1')
-  echo "$ID valid=$V caught=$C $(echo "$R" | grep -A1 '^check' | grep '^#' | head -1 | cut -c1-160)" >> $OUT
+  N=$(echo "$R" | grep -cE '^check')
+  echo "$ID valid=$V caught=$C/$N ($PROPS) $(echo "$R" | grep -A1 '^check' | grep '^#' | head -1 | cut -c1-140)" >> $OUT
 done
